@@ -25,18 +25,18 @@ package geometry
 //@ spec func pointIntersectsPolyS(p Point, P *Poly) bool { P != nil && polyHas(P, p) }
 
 //@ func Point.ContainsRect
-//@   props C03
+//@   props C03 C09
 //@   arith order
 //@   ensures result == pointContainsRectS(point, rect)
 
 //@ func Point.ContainsLine
-//@   props C03
+//@   props C03 C09
 //@   arith order
 //@   requires line != nil ==> LineInv(line)
 //@   ensures result == pointContainsLineS(point, line)
 
 //@ func Point.ContainsPoly
-//@   props C03
+//@   props C03 C09
 //@   arith order
 //@   requires poly != nil ==> PolyInv(poly)
 //@   ensures result == pointContainsPolyS(point, poly)
@@ -51,18 +51,18 @@ package geometry
 //@ spec func rectContainsPolyS(r Rect, P *Poly) bool { P != nil && !polyEmptyS(P) && rectInside(polyRectS(P), r) }
 
 //@ func Rect.ContainsRect
-//@   props C03 C02
+//@   props C03 C02 C09
 //@   arith order
 //@   ensures result == rectContainsRectS(rect, other)
 
 //@ func Rect.ContainsLine
-//@   props C03
+//@   props C03 C09
 //@   arith order
 //@   requires line != nil ==> LineInv(line)
 //@   ensures result == rectContainsLineS(rect, line)
 
 //@ func Rect.ContainsPoly
-//@   props C03
+//@   props C03 C09
 //@   arith order
 //@   requires poly != nil ==> PolyInv(poly)
 //@   ensures result == rectContainsPolyS(rect, poly)
@@ -74,13 +74,13 @@ package geometry
 //@ spec func risS(r Series, g Segment, e bool) bool
 
 //@ func ringContainsSegment
-//@   props C03 C02
+//@   props C03 C02 C09
 //@   trusted planar case analysis, bounded by govrac ringseg
 //@   requires RingInv(ring)
 //@   ensures result == rcsS(ring, seg, allowOnEdge)
 
 //@ func ringIntersectsSegment
-//@   props C02 C03
+//@   props C02 C03 C09
 //@   trusted planar case analysis, bounded by govrac ringseg
 //@   requires RingInv(ring)
 //@   ensures result == risS(ring, seg, allowOnEdge)
@@ -89,7 +89,7 @@ package geometry
 //@ spec func hitS(r Series, p Point, e bool) bool { ite(e, pipClosed(r,p), pipOpen(r,p)) }
 
 //@ func ringIntersectsPoint
-//@   props C01 C02
+//@   props C01 C02 C09
 //@   requires RingInv(ring)
 //@   ensures Hit: result.hit == hitS(ring, point, allowOnEdge)
 //@   ensures Idx: (result.idx != -1) == onAny(ring, point, sNseg(ring))
@@ -104,7 +104,7 @@ package geometry
 //@     !sEmpty(a) && !sEmpty(b) && ((sNpts(b) >= 16 && rcrCoreS(a, boxRect(sRect(b)), e)) || rcrCoreS(a, b, e)) }
 
 //@ func ringContainsRing
-//@   props C03 C02
+//@   props C03 C02 C09
 //@   requires RingInv(ring) && SeriesInv(other)
 //@   ensures result == ringContainsRingS(ring, other, allowOnEdge)
 //@   decreases ite(sNpts(other) >= 16, 1, 0)
@@ -115,7 +115,7 @@ package geometry
 
 //@ spec func rectAreaS(r Rect) real { (r.Max.X - r.Min.X) * (r.Max.Y - r.Min.Y) }
 //@ func Rect.Area
-//@   props C02
+//@   props C02 C09
 //@   ensures result == rectAreaS(rect)
 
 // some segment of b intersects ring a
@@ -127,7 +127,7 @@ package geometry
 //@     ite(rectAreaS(sRect(b)) > rectAreaS(sRect(a)), risAnyS(b, a, e), risAnyS(a, b, e)) }
 
 //@ func ringIntersectsRing
-//@   props C02 C03
+//@   props C02 C03 C09
 //@   requires RingInv(ring) && RingInv(other)
 //@   ensures result == ringIntersectsRingS(ring, other, allowOnEdge)
 //@   loop 0 invariant 0 <= i && i <= otherNumSegments && otherNumSegments == sNseg(other) && RingInv(ring)
@@ -139,7 +139,7 @@ package geometry
 //@ spec func ringContainsLineS(r Series, l *Line, e bool) bool opaque { ringContainsRingS(r, l.baseSeries, e) }
 
 //@ func ringContainsLine
-//@   props C03 C02
+//@   props C03 C02 C09
 //@   requires RingInv(ring) && LineInv(line)
 //@   ensures result == ringContainsLineS(ring, line, allowOnEdge)
 
@@ -149,7 +149,7 @@ package geometry
 //@     !sEmpty(r) && !lineEmptyS(l) && rectsMeet(sRect(r), lineRectS(l)) && (anyPtHitS(r, l.baseSeries, e) || risAnyS(r, l.baseSeries, e)) }
 
 //@ func ringIntersectsLine
-//@   props C02 C03
+//@   props C02 C03 C09
 //@   requires RingInv(ring) && LineInv(line)
 //@   ensures result == ringIntersectsLineS(ring, line, allowOnEdge)
 //@   loop 0 invariant 0 <= i && i <= lineNumPoints && lineNumPoints == sNpts(line.baseSeries) && (forall j int :: 0 <= j && j < i ==> !hitS(ring, sPt(line.baseSeries,j), allowOnEdge))
@@ -172,7 +172,7 @@ package geometry
 //@     (forall h int :: 0 <= h && h < polyNHoles(P) ==> !ringContainsLineS(polyHole(P,h), l, false)) }
 
 //@ func Poly.ContainsLine
-//@   props C03
+//@   props C03 C09
 //@   requires poly != nil ==> PolyInv(poly)
 //@   requires line != nil ==> LineInv(line)
 //@   ensures result == polyContainsLineS(poly, line)
@@ -180,7 +180,7 @@ package geometry
 //@   loop 0 assert polyHole(poly, $i) == polyHole
 
 //@ func Poly.IntersectsLine
-//@   props C02
+//@   props C02 C09
 //@   requires poly != nil ==> PolyInv(poly)
 //@   requires line != nil ==> LineInv(line)
 //@   ensures result == polyIntersectsLineS(poly, line)
@@ -200,7 +200,7 @@ package geometry
 //@     (forall g int :: 0 <= g && g < polyNHoles(Q) ==> !ringContainsRingS(polyHole(Q,g), polyExt(P), false)) }
 
 //@ func Poly.ContainsPoly
-//@   props C03
+//@   props C03 C09
 //@   requires poly != nil ==> PolyInv(poly)
 //@   requires other != nil ==> PolyInv(other)
 //@   ensures result == polyContainsPolyS(poly, other)
@@ -212,7 +212,7 @@ package geometry
 //@   loop 1 assert OtherInv: RingInv(otherHole)
 
 //@ func Poly.IntersectsPoly
-//@   props C02
+//@   props C02 C09
 //@   requires poly != nil ==> PolyInv(poly)
 //@   requires other != nil ==> PolyInv(other)
 //@   ensures result == polyIntersectsPolyS(poly, other)
@@ -230,13 +230,13 @@ package geometry
 //@     (forall h int :: 0 <= h && h < polyNHoles(P) ==> !ringContainsRingS(polyHole(P,h), boxRect(r), false)) }
 
 //@ func Poly.ContainsRect
-//@   props C03
+//@   props C03 C09
 //@   requires poly != nil ==> PolyInv(poly)
 //@   requires rectOK(rect)
 //@   ensures result == polyContainsRectS(poly, rect)
 
 //@ func Poly.IntersectsRect
-//@   props C02
+//@   props C02 C09
 //@   requires poly != nil ==> PolyInv(poly)
 //@   requires rectOK(rect)
 //@   ensures result == polyIntersectsRectS(poly, rect)
@@ -249,25 +249,25 @@ package geometry
 //@ spec func lineIntersectsPolyS(l *Line, P *Poly) bool { polyIntersectsLineS(P, l) }
 
 //@ func Rect.IntersectsLine
-//@   props C02
+//@   props C02 C09
 //@   requires line != nil ==> LineInv(line)
 //@   requires rectOK(rect)
 //@   ensures result == rectIntersectsLineS(rect, line)
 
 //@ func Rect.IntersectsPoly
-//@   props C02
+//@   props C02 C09
 //@   requires poly != nil ==> PolyInv(poly)
 //@   requires rectOK(rect)
 //@   ensures result == rectIntersectsPolyS(rect, poly)
 
 //@ func Line.IntersectsRect
-//@   props C02
+//@   props C02 C09
 //@   requires line != nil ==> LineInv(line)
 //@   requires rectOK(rect)
 //@   ensures result == lineIntersectsRectS(line, rect)
 
 //@ func Line.IntersectsPoly
-//@   props C02
+//@   props C02 C09
 //@   requires line != nil ==> LineInv(line)
 //@   requires poly != nil ==> PolyInv(poly)
 //@   ensures result == lineIntersectsPolyS(line, poly)
@@ -288,7 +288,7 @@ package geometry
 // bound the corners of the stored rectangle to the coordinate domain, so seriesInDomSeg of that temporary is not derivable)
 //@ spec func LineInvW(l *Line) bool { l != nil && dyn(l.baseSeries) == typeid(*baseSeries) && SeriesInv(l.baseSeries) }
 //@ func Line.ContainsLine
-//@   props C03
+//@   props C03 C09
 //@   trusted segment walk with index rewinding: exactness and termination are false on the pinned tree (F3, F4); bounded by govrac lineline
 //@   requires line != nil ==> LineInv(line)
 //@   requires other != nil ==> LineInvW(other)
@@ -303,13 +303,13 @@ package geometry
 //@     l != nil && !lineEmptyS(l) && (r.Min.X == r.Max.X || r.Min.Y == r.Max.Y) && lcsS(l, r.Min, r.Max) }
 
 //@ func Line.ContainsPoly
-//@   props C03
+//@   props C03 C09
 //@   requires line != nil ==> LineInv(line)
 //@   requires poly != nil ==> PolyInv(poly)
 //@   ensures result == lineContainsPolyS(line, poly)
 
 //@ func Line.ContainsRect
-//@   props C03
+//@   props C03 C09
 //@   requires line != nil ==> LineInv(line)
 //@   requires rectOK(rect)
 //@   ensures result == lineContainsRectS(line, rect)
@@ -323,53 +323,53 @@ package geometry
 
 // a common point lies in both bounding boxes
 //@ lemma meetBox(a Point, b Point, c Point, d Point, s real, t real)
-//@   props C02 C19
+//@   props C02 C19 C09
 //@   requires meet(a,b,c,d,s,t)
 //@   ensures rectsMeet(segRect(mkSegment(c,d)), segRect(mkSegment(a,b)))
 //@ lemma segsMeetBox(g Segment, h Segment)
-//@   props C02
+//@   props C02 C09
 //@   requires segsMeetS(g, h)
 //@   ensures rectsMeet(segRect(h), segRect(g)) && rectsMeet(segRect(g), segRect(h))
 //@   use forall s real, t real :: meetBox(g.A, g.B, h.A, h.B, s, t)
 //@ lemma segsMeetSym(g Segment, h Segment)
-//@   props C02 C12 C19
+//@   props C02 C12 C19 C09
 //@   ensures segsMeetS(g, h) == segsMeetS(h, g)
 
 // the code's segment test IS "the two closed segments share a point" (from the verified contract of Segment.IntersectsSegment)
 //@ lemma segsMeetIntro(g Segment, h Segment, s real, t real)
-//@   props C02 C12
+//@   props C02 C12 C09
 //@   requires meet(g.A, g.B, h.A, h.B, s, t)
 //@   ensures segsMeetS(g, h)
 //@ lemma isegIsMeet(g Segment, h Segment)
-//@   props C02 C19
+//@   props C02 C19 C09
 //@   requires inDom(g.A) && inDom(g.B) && inDom(h.A) && inDom(h.B)
 //@   ensures isegS(g, h) == segsMeetS(g, h)
 //@   use contractOf_isegS(g, h)
 //@   use forall s real, t real :: segsMeetIntro(g, h, s, t)
 
 //@ lemma segXLineWitness(g Segment, m *Line, j int)
-//@   props C02
+//@   props C02 C09
 //@   requires 0 <= j && j < sNseg(m.baseSeries) && segsMeetS(g, sSeg(m.baseSeries,j))
 //@   ensures segXLineS(g, m)
 //@ lemma lineXLineWitness(l *Line, m *Line, i int)
-//@   props C02
+//@   props C02 C09
 //@   requires 0 <= i && i < sNseg(l.baseSeries) && segXLineS(sSeg(l.baseSeries,i), m)
 //@   ensures lineXLineS(l, m)
 // "segment j of m does not meet g", hidden so that the search invariant is a plain set fact (unfolded only by the two lemmas below)
 //@ spec func clearAt(g Segment, m *Line, j int) bool rec hidden { !segsMeetS(g, sSeg(m.baseSeries,j)) }
 //@ lemma clearIntro(g Segment, m *Line, j int)
-//@   props C02
+//@   props C02 C09
 //@   reveal clearAt
 //@   requires !segsMeetS(g, sSeg(m.baseSeries,j))
 //@   ensures clearAt(g, m, j)
 //@ lemma clearElim(g Segment, m *Line, j int)
-//@   props C02
+//@   props C02 C09
 //@   reveal clearAt
 //@   requires clearAt(g, m, j)
 //@   ensures !segsMeetS(g, sSeg(m.baseSeries,j))
 // the search reported exactly the segments of m whose box meets the box of g, and none of them meets g: then no segment of m meets g
 //@ lemma segXLineNone(seen set, g Segment, m *Line)
-//@   props C02
+//@   props C02 C09
 //@   use forall j int :: clearElim(g, m, j)
 //@   requires forall j int :: seen[j] == (0 <= j && j < sNseg(m.baseSeries) && rectsMeet(segRect(sSeg(m.baseSeries,j)), segRect(g)))
 //@   requires forall j int :: seen[j] ==> clearAt(g, m, j)
@@ -377,20 +377,20 @@ package geometry
 //@   use forall j int :: segsMeetBox(g, sSeg(m.baseSeries,j))
 // the relation is symmetric
 //@ lemma lineXLineSym1(l *Line, m *Line)
-//@   props C02 C12
+//@   props C02 C12 C09
 //@   requires lineXLineS(l, m)
 //@   ensures lineXLineS(m, l)
 //@   use forall g Segment, h Segment :: segsMeetSym(g, h)
 //@   use forall i int, j int :: segXLineWitness(sSeg(m.baseSeries,j), l, i)
 //@   use forall j int :: lineXLineWitness(m, l, j)
 //@ lemma lineXLineSym(l *Line, m *Line)
-//@   props C02 C12
+//@   props C02 C12 C09
 //@   ensures lineXLineS(l, m) == lineXLineS(m, l)
 //@   use lineXLineSym1(l, m)
 //@   use lineXLineSym1(m, l)
 
 //@ func Line.IntersectsLine
-//@   props C02
+//@   props C02 C09
 //@   requires line != nil ==> LineInv(line)
 //@   requires other != nil ==> LineInv(other)
 //@   ensures result == lineIntersectsLineS(line, other)
@@ -447,13 +447,13 @@ package geometry
 //@   props C12 C19 C01
 //@   ensures rayIn(trP(a,dx,dy), trP(b,dx,dy), trP(p,dx,dy)) == rayIn(a,b,p)
 //@ lemma meetTr(a Point, b Point, c Point, d Point, s real, t real, dx real, dy real)
-//@   props C12 C19 C02
+//@   props C12 C19 C02 C09
 //@   ensures meet(trP(a,dx,dy), trP(b,dx,dy), trP(c,dx,dy), trP(d,dx,dy), s, t) == meet(a,b,c,d,s,t)
 //@ lemma zcrossTr(a Point, b Point, c Point, dx real, dy real)
 //@   props C12 C18
 //@   ensures zcross(trP(a,dx,dy), trP(b,dx,dy), trP(c,dx,dy)) == zcross(a,b,c)
 //@ lemma rectsTr(a Rect, b Rect, p Point, dx real, dy real)
-//@   props C12 C02 C03
+//@   props C12 C02 C03 C09
 //@   ensures Meet: rectsMeet(trR(a,dx,dy), trR(b,dx,dy)) == rectsMeet(a,b)
 //@   ensures Has: rectHas(trR(a,dx,dy), trP(p,dx,dy)) == rectHas(a,p)
 //@   ensures Inside: rectInside(trR(a,dx,dy), trR(b,dx,dy)) == rectInside(a,b)
@@ -469,7 +469,7 @@ package geometry
 //@   props C12 C19 C01
 //@   ensures rayIn(scP(a,2), scP(b,2), scP(p,2)) == rayIn(a,b,p)
 //@ lemma meetSc(a Point, b Point, c Point, d Point, s real, t real)
-//@   props C12 C19 C02
+//@   props C12 C19 C02 C09
 //@   ensures meet(scP(a,2), scP(b,2), scP(c,2), scP(d,2), s, t) == meet(a,b,c,d,s,t)
 //@ lemma zcrossSc(a Point, b Point, c Point)
 //@   props C12 C18
@@ -483,15 +483,15 @@ package geometry
 //@   props C12 C19 C01
 //@   ensures rayIn(b,a,p) == rayIn(a,b,p)
 //@ lemma meetSwapFirst(a Point, b Point, c Point, d Point, s real, t real)
-//@   props C12 C19 C02
+//@   props C12 C19 C02 C09
 //@   ensures meet(b,a,c,d,1-s,t) == meet(a,b,c,d,s,t)
 //@ lemma meetSwapSecond(a Point, b Point, c Point, d Point, s real, t real)
-//@   props C12 C19 C02
+//@   props C12 C19 C02 C09
 //@   ensures meet(a,b,d,c,s,1-t) == meet(a,b,c,d,s,t)
 
 // (d) operand swap
 //@ lemma meetSwapOperands(a Point, b Point, c Point, d Point, s real, t real)
-//@   props C12 C19 C02
+//@   props C12 C19 C02 C09
 //@   ensures meet(c,d,a,b,t,s) == meet(a,b,c,d,s,t)
 
 // (e) reflections x -> -x, y -> -y and the diagonal swap x <-> y  (rayIn is NOT invariant under these: the ray changes direction)
@@ -501,7 +501,7 @@ package geometry
 //@   ensures Y: onSeg(ryP(a), ryP(b), ryP(p)) == onSeg(a,b,p)
 //@   ensures D: onSeg(dgP(a), dgP(b), dgP(p)) == onSeg(a,b,p)
 //@ lemma meetRefl(a Point, b Point, c Point, d Point, s real, t real)
-//@   props C12 C19 C02
+//@   props C12 C19 C02 C09
 //@   ensures X: meet(rxP(a), rxP(b), rxP(c), rxP(d), s, t) == meet(a,b,c,d,s,t)
 //@   ensures Y: meet(ryP(a), ryP(b), ryP(c), ryP(d), s, t) == meet(a,b,c,d,s,t)
 //@   ensures D: meet(dgP(a), dgP(b), dgP(c), dgP(d), s, t) == meet(a,b,c,d,s,t)
@@ -520,21 +520,21 @@ package geometry
 //@ spec func trG(g Segment, dx real, dy real) Segment { mkSegment(trP(g.A,dx,dy), trP(g.B,dx,dy)) }
 //@ spec func flipG(g Segment) Segment { mkSegment(g.B, g.A) }
 //@ lemma segsMeetTr(g Segment, h Segment, dx real, dy real)
-//@   props C12 C02
+//@   props C12 C02 C09
 //@   ensures segsMeetS(trG(g,dx,dy), trG(h,dx,dy)) == segsMeetS(g, h)
 //@ lemma flipIntro(a Point, b Point, c Point, d Point, s real, t real)
-//@   props C02 C12
+//@   props C02 C12 C09
 //@   requires meet(a,b,c,d,s,t)
 //@   ensures segsMeetS(mkSegment(b,a), mkSegment(c,d)) && segsMeetS(mkSegment(a,b), mkSegment(d,c))
 //@   use segsMeetIntro(mkSegment(b,a), mkSegment(c,d), 1-s, t)
 //@   use segsMeetIntro(mkSegment(a,b), mkSegment(d,c), s, 1-t)
 //@ lemma segsMeetFlip1(g Segment, h Segment)
-//@   props C12 C02
+//@   props C12 C02 C09
 //@   requires segsMeetS(g, h)
 //@   ensures segsMeetS(flipG(g), h) && segsMeetS(g, flipG(h))
 //@   use forall s real, t real :: flipIntro(g.A, g.B, h.A, h.B, s, t)
 //@ lemma segsMeetFlip(g Segment, h Segment)
-//@   props C12 C02
+//@   props C12 C02 C09
 //@   ensures segsMeetS(flipG(g), h) == segsMeetS(g, h) && segsMeetS(g, flipG(h)) == segsMeetS(g, h)
 //@   use segsMeetFlip1(g, h)
 //@   use segsMeetFlip1(flipG(g), h)
@@ -544,10 +544,10 @@ package geometry
 //@ spec func ryG(g Segment) Segment { mkSegment(ryP(g.A), ryP(g.B)) }
 //@ spec func dgG(g Segment) Segment { mkSegment(dgP(g.A), dgP(g.B)) }
 //@ lemma segsMeetSc(g Segment, h Segment)
-//@   props C12 C02
+//@   props C12 C02 C09
 //@   ensures segsMeetS(scG(g,2), scG(h,2)) == segsMeetS(g, h)
 //@ lemma segsMeetRefl(g Segment, h Segment)
-//@   props C12 C02
+//@   props C12 C02 C09
 //@   ensures X: segsMeetS(rxG(g), rxG(h)) == segsMeetS(g, h)
 //@   ensures Y: segsMeetS(ryG(g), ryG(h)) == segsMeetS(g, h)
 //@   ensures D: segsMeetS(dgG(g), dgG(h)) == segsMeetS(g, h)
@@ -559,18 +559,18 @@ package geometry
 //@ spec func allPtsInS(ps []Point, r Rect, k int) bool rec { k <= 0 || (allPtsInS(ps,r,k-1) && rectHas(r, ptAt(ps,k-1))) }
 // bbox == (p,p)  <=>  every position equals p
 //@ lemma bboxPoint(ps []Point, p Point, k int)
-//@   props C03 C11
+//@   props C03 C11 C09
 //@   requires 1 <= k
 //@   ensures (bboxOf(ps,k) == mkRect(p,p)) == allPtsEqS(ps,p,k)
 //@   induction k
 //@ lemma bboxOK(ps []Point, k int)
-//@   props C03 C11
+//@   props C03 C11 C09
 //@   requires 1 <= k
 //@   ensures rectOK(bboxOf(ps,k))
 //@   induction k
 // bbox inside r  <=>  every position inside r
 //@ lemma bboxInsideAll(ps []Point, r Rect, k int)
-//@   props C03 C11
+//@   props C03 C11 C09
 //@   requires 1 <= k
 //@   ensures rectInside(bboxOf(ps,k), r) == allPtsInS(ps,r,k)
 //@   induction k
@@ -583,30 +583,30 @@ package geometry
 //@     forall j int :: 0 <= j && j < sNseg(l.baseSeries) ==> rectHas(lineRectS(l), sSeg(l.baseSeries,j).A) && rectHas(lineRectS(l), sSeg(l.baseSeries,j).B) }
 // a point of the line lies in the stored rectangle
 //@ lemma lineHasInRectK(l *Line, p Point, k int)
-//@   props C01 C02 C03
+//@   props C01 C02 C03 C09
 //@   requires l != nil && LineInv(l) && LineBoxInv(l) && k <= sNseg(l.baseSeries) && onAny(l.baseSeries, p, k)
 //@   ensures rectHas(lineRectS(l), p)
 //@   induction k
 //@   use onInBox(sSeg(l.baseSeries,k-1).A, sSeg(l.baseSeries,k-1).B, p, lineRectS(l))
 //@   have In: k >= 1 ==> (rectHas(lineRectS(l), sSeg(l.baseSeries,k-1).A) && rectHas(lineRectS(l), sSeg(l.baseSeries,k-1).B))
 //@ lemma lineHasInRect(l *Line, p Point)
-//@   props C01 C02 C03
+//@   props C01 C02 C03 C09
 //@   requires l != nil && LineInv(l) && LineBoxInv(l) && lineHas(l, p)
 //@   ensures rectHas(lineRectS(l), p)
 //@   use lineHasInRectK(l, p, sNseg(l.baseSeries))
 //@ lemma lxlBoxes(l *Line, m *Line, i int, j int)
-//@   props C02
+//@   props C02 C09
 //@   requires l != nil && m != nil && LineInv(l) && LineInv(m) && LineBoxInv(l) && LineBoxInv(m)
 //@   requires 0 <= i && i < sNseg(l.baseSeries) && 0 <= j && j < sNseg(m.baseSeries) && segsMeetS(sSeg(l.baseSeries,i), sSeg(m.baseSeries,j))
 //@   ensures rectsMeet(lineRectS(l), lineRectS(m)) && !lineEmptyS(l) && !lineEmptyS(m)
 //@   use segsMeetBox(sSeg(l.baseSeries,i), sSeg(m.baseSeries,j))
 //@ lemma lineIntersectsLineClean(l *Line, m *Line)
-//@   props C02 C12
+//@   props C02 C12 C09
 //@   requires l != nil && m != nil && LineInv(l) && LineInv(m) && LineBoxInv(l) && LineBoxInv(m)
 //@   ensures lineIntersectsLineS(l, m) == lineXLineS(l, m)
 //@   use forall i int, j int :: lxlBoxes(l, m, i, j)
 //@ lemma lineIntersectsLineSym(l *Line, m *Line)
-//@   props C02 C12
+//@   props C02 C12 C09
 //@   ensures lineIntersectsLineS(l, m) == lineIntersectsLineS(m, l)
 //@   use lineXLineSym(l, m)
 
